@@ -207,6 +207,48 @@ def update_psd_faults(ctx, nph=1, ncls=2, nel=2, remesh=False, mode="any", recor
                                   ctx.all([ctx.all([ctx.le(lo, m.PSDXbeta[0][i, e]), ctx.le(m.PSDXbeta[0][i, e], hi)]) for i in range(nb + 1)]))
 
 
+def update_psd_binary_reset(ctx, ncls=2, calcAR=False):
+    """real _updateParticleSizeDistribution (binary) on the step on which the phase is reset (negative driving force, no equilibrium) while
+    its grid has another class count than the original one: everything defined per size class follows the reset grid -- tables, growth,
+    equilibrium aspect ratios -- and the growth-rate guard is closed (no growth is computed from the zeroed table)"""
+    m, info = mk_kwn(ctx, 1, 1, ncls, hist=1)
+    pp = m.precipitateParameters[0]
+    pp._gamma = 0.1; pp.nucleation._gamma = 0.1
+    m.PBM[0].originalBins = ncls + 2; m.PBM[0].originalMin = 1.0; m.PBM[0].originalMax = 2.0
+    m.PBM[0].maxBins = 10 * ncls; m.PBM[0].minBins = 2
+    m.PBM[0].getDissolutionIndex = lambda *a, **k: 0
+
+    class Th:
+        numElements = 2
+
+        def getInterdiffusivity(s, x, T, removeCache=False):
+            return ctx.real("D", (0.1, 2.0))
+    m.therm = Th()
+    m.removeCache = False
+    m.matrixParameters.effectiveDiffusion.isEnabled = False
+    m.RdrivingForceIndex = np.zeros(1, dtype=np.int32)          # left over from the smaller table
+    m.growth = [ctx.reals("prev_growth", ncls + 1, (-1.0, 1.0))]
+    m.pData.drivingForce = ctx.reals("dG", (1, 1), (-1.0, -0.1)); ctx.assume(m.pData.drivingForce[0, 0] < 0)
+    m.pData.temperature = ctx.reals("T", 1, (500.0, 900.0))
+    m.pData.xEqAlpha = np.zeros((1, 1, 1)); m.pData.xEqBeta = np.zeros((1, 1, 1))
+    m.constraints.minRadius = 0.0
+    m.dTemp = 0
+    x = [ctx.reals("x0", ncls, (0.0, 4.0))]
+    for i in range(ncls):
+        ctx.assume(x[0][i] >= 0)
+    m._updateParticleSizeDistribution(ctx.real("t", (0.1, 1.0)), x)
+    nb = m.PBM[0].bins
+    ctx.prove("the phase was reset to the original grid", nb == ncls + 2 and len(m.PBM[0].PSD) == nb)
+    ctx.prove("tables and growth follow the reset grid", len(m.PSDXalpha[0]) == nb + 1 and len(m.PSDXbeta[0]) == nb + 1 and np.shape(m.growth[0]) == (nb + 1,))
+    ctx.prove("equilibrium aspect ratios follow the reset grid", len(m.eqAspectRatio[0]) == nb + 1)
+    ctx.prove("the growth-rate guard is closed: the index of the smallest stable class points past the (zeroed) table",
+              int(m.RdrivingForceIndex[0]) + 1 >= len(m.PSDXalpha[0]))
+    Y = m.pData.copySlice(0)
+    Y.composition = ctx.reals("Ycomp", (1, 1), (0.01, 0.3))
+    g = m._singleGrowthBinary(0, Y)
+    ctx.prove("growth rate after the reset is zero on every class boundary (defined)", np.shape(g) == (nb + 1,) and bool(ctx.all([ctx.eq(g[i], 0.0) for i in range(nb + 1)])))
+
+
 def update_psd_binary_faults(ctx, ncls=2):
     """real _updateParticleSizeDistribution (binary): classes are appended and the backend answers the "no result" sentinel -1 for some
     of the new classes (symbolic bits): the lookup table holds no sentinel afterwards, the failed classes continue from the last valid class,
@@ -262,8 +304,8 @@ def update_psd_binary_faults(ctx, ncls=2):
 class BinStub:
     numElements = 2
 
-    def __init__(self, ctx, unstable_upto, planar_fault):
-        self.ctx, self.k, self.planar_fault, self.n, self.nd = ctx, unstable_upto, planar_fault, 0, 0
+    def __init__(self, ctx, unstable_upto, planar_fault, holes=()):
+        self.ctx, self.k, self.planar_fault, self.n, self.nd, self.holes = ctx, unstable_upto, planar_fault, 0, 0, tuple(holes)
 
     def getInterfacialComposition(self, T, gExtra=0, precPhase=None):
         self.n += 1
@@ -280,6 +322,9 @@ class BinStub:
             c.assume(xa[i] > 0)
         for i in range(min(self.k, n)):
             xa[i] = -1; xb[i] = -1
+        for h in self.holes:            # a failed calculation for a larger, stable class
+            if h < n:
+                xa[h] = -1; xb[h] = -1
         return xa, xb
 
     def getInterdiffusivity(self, x, T, removeCache=False):
@@ -287,9 +332,9 @@ class BinStub:
         return self.ctx.real("D_%d" % self.nd, (0.1, 2.0))
 
 
-def faults_binary(ctx, nph=1, ncls=3, k=1, planar="ok", refresh=True):
+def faults_binary(ctx, nph=1, ncls=3, k=1, planar="ok", refresh=True, hole=None):
     m, info = mk_kwn(ctx, nph, 1, ncls, hist=1)
-    m.therm = BinStub(ctx, k, planar)
+    m.therm = BinStub(ctx, k, planar, holes=() if hole is None else (hole,))
     m.removeCache = False
     m.matrixParameters.effectiveDiffusion.isEnabled = False    # 252-point interpolation table: not the subject here (C12 covers it with a small table)
     for p in range(nph):
@@ -408,6 +453,9 @@ HARNESSES = [
                                  {"nph": 1, "ncls": 3, "nel": 2, "mode": "remesh"}, {"nph": 2, "ncls": 2, "nel": 2, "mode": "append", "recording": True, "_shards": 4}]}),
             # (a fully symbolic grid -- mode "any" -- makes the interpolation of the tables onto a re-meshed grid branch on non-linear comparisons the solvers do not
             #  decide within minutes; the re-mesh case is therefore explored on concrete grids only, mode "remesh")
+    Harness("C03.update_psd_binary_reset", update_psd_binary_reset, functions=_F + [PrecipitateModel._updateParticleSizeDistribution, PrecipitateModel._singleGrowthBinary],
+            assumptions=_A + ["the grid in force has another class count than the original grid (it was re-meshed before); negative driving force and zero equilibrium compositions (the reset condition)"],
+            params={"quick": [{"ncls": 2}], "thorough": [{"ncls": 3}]}),
     Harness("C03.update_psd_binary_faults", update_psd_binary_faults, functions=_F + [PrecipitateModel._updateParticleSizeDistribution, PBM.adjustSizeClassesEuler],
             assumptions=_A + ["the table in force is valid (positive compositions); the last class is filled so that classes are appended"],
             stubs=["therm.getInterfacialComposition: fresh symbolic values, -1 for the appended classes whose symbolic fault bit is set"],
@@ -436,8 +484,8 @@ HARNESSES = [
             bounds={"classes": "ncls", "unstable boundaries": "k"},
             opts={"max_paths": 1500}, budget={"quick": 170.0, "thorough": 1500.0},
             params={"quick": [{"ncls": 2, "k": 0}, {"ncls": 3, "k": 2}, {"ncls": 2, "k": 3, "planar": "none"}, {"ncls": 2, "k": 1, "planar": "sentinel", "refresh": False},
-                              {"ncls": 2, "k": 3, "refresh": False}],
-                    "thorough": [{"nph": nph, "ncls": 3, "k": k, "planar": pl, "refresh": rf} for nph in (1, 2) for k in (0, 1, 3, 4) for pl in ("ok", "none", "sentinel") for rf in (True, False)]}),
+                              {"ncls": 2, "k": 3, "refresh": False}, {"ncls": 3, "k": 1, "hole": 2}, {"ncls": 3, "k": 0, "hole": 3}],
+                    "thorough": [{"ncls": 4, "k": 1, "hole": 3}, {"ncls": 4, "k": 2, "hole": 4}] + [{"nph": nph, "ncls": 3, "k": k, "planar": pl, "refresh": rf} for nph in (1, 2) for k in (0, 1, 3, 4) for pl in ("ok", "none", "sentinel") for rf in (True, False)]}),
     Harness("C03.getdt", getdt, functions=_F, assumptions=_A + ["recorded quantities finite, rates/radii >= 0, constraint parameters > 0, finalTime > current time"],
             bounds={"phases": "nph", "classes": "ncls", "history": "hist"}, opts={"max_paths": 3000, "ob_timeout": 30.0}, budget={"quick": 150.0, "thorough": 1200.0},
             params={"quick": [{"nph": 1, "ncls": 2, "hist": 1}, {"nph": 1, "ncls": 2, "hist": 2, "_shards": 4}], "thorough": [{"nph": 2, "ncls": 2, "hist": 2}, {"nph": 1, "ncls": 3, "hist": 3}]}),
